@@ -102,6 +102,12 @@ def run(chk):
                 k = rng.below(len(t))
                 texts.append(t[:k] + rng.choice(['', 'x', '0x', '-', '[', ' 99999999999999999999 ', 'r11']) + t[k + 1:])
         texts += ['', 'exit', 'mov r0, 0x1\nexit', 'lddw r1, 0xffffffffffffffff', 'ja +0x7fff', 'bogus r1', 'add64 r1', 'ldxw r1, [r2+0x8000]']
+        # characters that an embedded (no_std) caller's buffers may carry: NUL padding, other control characters, a byte-order mark,
+        # non-ASCII letters and spaces -- at the end, at the start and inside otherwise valid texts
+        for junk in ('\0', '\0\0\0', '\x01', '\x7f', '\ufeff', '\u00e9', '\u3000', '\r', '\t', '\x0b', '\x0c', '\u2028'):
+            for base in ('exit', 'mov r0, 1\nexit\n', 'lddw r1, 0x10'):
+                texts += [base + junk, junk + base, base[:3] + junk + base[3:]]
+            texts.append(junk)
         for t in texts:
             lines.append('asm %s' % (t.encode().hex() or '-'))
         # API histories: the C10 alphabet (every `jit` supplies fresh executable memory), and histories in which the memory is
